@@ -1,5 +1,5 @@
 #!/usr/bin/env python3
-"""mutgen.py <slot> <nslots> <count> [seed] : generic mutation run (development helper, not a registered check).
+"""mutgen.py <slot> <nslots> <count> [seed] [skip] : generic mutation run (development helper, not a registered check).
 
 Generates single-token mutants (relational/boolean/arithmetic operator replacement, negated conditions, off-by-one
 constants, swapped boolean literals) of the non-test sources of the verified packages, keeps those that compile and
@@ -12,6 +12,7 @@ import json, os, random, re, subprocess, sys, hashlib
 
 slot, nslots, count = int(sys.argv[1]), int(sys.argv[2]), int(sys.argv[3])
 seed = int(sys.argv[4]) if len(sys.argv) > 4 else 1
+skip = int(sys.argv[5]) if len(sys.argv) > 5 else 0  # candidates of this slot already tried by an earlier run
 ENV = dict(os.environ, GOFLAGS='-mod=mod', GOPROXY='off', GOSUMDB='off', GOTOOLCHAIN='local')
 PKGS = ['data', 'parsley', 'text', 'ast', 'parser', 'combinator', 'ast/interpreter', 'text/terminal']
 WT = f'/tmp/wt_mut_{slot}'
@@ -79,7 +80,7 @@ def main():
     cands = candidates()
     rnd = random.Random(seed)
     rnd.shuffle(cands)
-    mine = [c for i, c in enumerate(cands) if i % nslots == slot]
+    mine = [c for i, c in enumerate(cands) if i % nslots == slot][skip:]
     print(f'{len(cands)} candidate mutants, slot {slot} takes up to {count} survivors', flush=True)
     if not os.path.isdir(WT):
         sh(f'git -C /repo worktree add -q --detach {WT} HEAD')
